@@ -348,7 +348,47 @@ fn mutate(bytes: &mut Vec<u8>, rng: &mut StdRng) -> Vec<String> {
         }
         let nz: Vec<usize> = (0..total).filter(|s| bytes[s * B..(s + 1) * B].iter().any(|x| *x != 0)).collect();
         let pick = |rng: &mut StdRng| if !nz.is_empty() && rng.random_bool(0.8) { nz[rng.random_range(0..nz.len())] } else { rng.random_range(0..total) };
-        match rng.random_range(0..8) {
+        match rng.random_range(0..9) {
+            8 => {
+                // forged counters behind valid framing: a metadata copy (or a journal slot) that passes every
+                // checksum but carries an extreme generation / count / size / time
+                let extreme = [u64::MAX, u64::MAX - 1, 1 << 63, u32::MAX as u64, 0][rng.random_range(0..5)];
+                if rng.random_range(0..4) > 0 {
+                    let which = rng.random_range(0..3);       // primary, backup, both
+                    let field = rng.random_range(0..5);
+                    for (i, at) in [L::META_PRIMARY, L::META_BACKUP].iter().enumerate() {
+                        if which != 2 && which != i { continue; }
+                        let Some(mut m) = L::block_of(bytes, *at as u64).and_then(L::decode_meta) else { continue };
+                        match field {
+                            0 => m.generation = extreme,
+                            1 => m.total_records = extreme,
+                            2 => m.total_size = extreme,
+                            3 => m.last_update_time = extreme,
+                            _ => m.creation_time = extreme,
+                        }
+                        if !m.has_checksum && field == 0 {
+                            // pre-0.6 metadata has no checksum: the generation bytes are just reserved bytes
+                            put(bytes, at * B + 76, &extreme.to_le_bytes());
+                        } else {
+                            let enc = L::encode_meta_full(&m);
+                            put(bytes, at * B, &enc);
+                        }
+                        notes.push(format!("forge meta{at} field{field}={extreme}"));
+                    }
+                } else {
+                    let total_blocks = total as u64;
+                    for slot in 0..2usize {
+                        let at = (1 + 3 * slot) * B;
+                        if at + 3 * B > bytes.len() { continue; }
+                        let js = L::decode_journal_slot(&bytes[at..at + 3 * B], total_blocks);
+                        if !js.valid || rng.random_bool(0.3) { continue; }
+                        let enc = L::encode_journal_slot(extreme.max(1), js.active, &js.extents);
+                        let n = enc.len().min(3 * B);
+                        put(bytes, at, &enc[..n]);
+                        notes.push(format!("forge journal slot{slot} generation={}", extreme.max(1)));
+                    }
+                }
+            }
             0 | 1 => {
                 let s = pick(rng);
                 for _ in 0..1 + rng.random_range(0..4) {
